@@ -233,3 +233,227 @@ Proof.
     rewrite <- (map_getn_seq cnt) at 2. apply map_ext. intros k.
     rewrite ncount_labels. cbn [Nat.ltb Nat.leb]. rewrite Nat.sub_0_r. reflexivity.
 Qed.
+
+(* ---------------------------------------------------------------- offsets: src_idx, dest_idx, d_r *)
+Lemma nadj_cumsum D : forall acc, nadj_diff (acc :: ncumsum_from acc D) = map (fun p => 0 <? p) D.
+Proof.
+  induction D as [|x r IH]; intros acc; [reflexivity|]. cbn [ncumsum_from].
+  change (nadj_diff (acc :: acc + x :: ncumsum_from (acc + x) r))
+    with (negb (acc =? acc + x) :: nadj_diff (acc + x :: ncumsum_from (acc + x) r)).
+  rewrite IH. cbn [map]. f_equal.
+  destruct (Nat.eqb_spec acc (acc + x)), (Nat.ltb_spec 0 x); try lia; reflexivity.
+Qed.
+
+Lemma cumsum0_nth D k : k <= length D -> getn (0 :: ncumsum D) k = nsum (firstn k D).
+Proof.
+  intros Hk. destruct k as [|k]; [reflexivity|]. unfold getn. cbn [nth]. unfold ncumsum.
+  rewrite ncumsum_from_nth by lia. reflexivity.
+Qed.
+
+Lemma last_cumsum_from D : forall acc, last (acc :: ncumsum_from acc D) 0 = acc + nsum D.
+Proof.
+  induction D as [|x r IH]; intros acc; [cbn; lia|]. cbn [ncumsum_from].
+  change (last (acc :: acc + x :: ncumsum_from (acc + x) r) 0)
+    with (last (acc + x :: ncumsum_from (acc + x) r) 0).
+  rewrite IH. unfold nsum. cbn [fold_right]. lia.
+Qed.
+
+Lemma src_idx_nth N g : g < length N -> getn (0 :: ncumsum (removelast N)) g = nsum (firstn g N).
+Proof.
+  intros Hg. destruct g as [|g]; [reflexivity|]. unfold getn. cbn [nth]. unfold ncumsum.
+  rewrite removelast_firstn_len.
+  rewrite ncumsum_from_nth by (rewrite firstn_length; lia).
+  rewrite firstn_firstn. replace (Nat.min (S g) (pred (length N))) with (S g) by lia. reflexivity.
+Qed.
+
+Definition blocks {A} (G : nat) (F : nat -> list A) : list A := concat (map F (seq 0 G)).
+
+Lemma blocks_ext {A} G (F F' : nat -> list A) : (forall o, o < G -> F o = F' o) -> blocks G F = blocks G F'.
+Proof. intros H. unfold blocks. f_equal. apply map_ext_in. intros o Ho. apply in_seq in Ho. apply H. lia. Qed.
+
+Lemma d_r_eq D :
+  ncumsum (diff_marks (0 :: ncumsum D)
+             (compress (nadj_diff (0 :: ncumsum D)) (seq 0 (length (0 :: ncumsum D) - 1)))
+             (last (0 :: ncumsum D) 0))
+  = blocks (length D) (fun o => repeat o (getn D o)).
+Proof.
+  unfold ncumsum at 2 3 4. rewrite last_cumsum_from, nadj_cumsum. cbn [length Nat.add].
+  rewrite ncumsum_from_length. replace (S (length D) - 1) with (length D) by lia.
+  apply diff_marks_spec. intros k Hk. apply cumsum0_nth. lia.
+Qed.
+
+Lemma map_blocks {B} (h : nat -> B) (c : nat -> nat) G :
+  map h (blocks G (fun o => repeat o (c o))) = blocks G (fun o => repeat (h o) (c o)).
+Proof. unfold blocks. rewrite map_concat_map. f_equal. apply map_ext. intros o. apply map_repeat. Qed.
+
+Lemma map_blocks_gen {A B} (h : A -> B) (F : nat -> list A) G :
+  map h (blocks G F) = blocks G (fun o => map h (F o)).
+Proof. unfold blocks. apply map_concat_map. Qed.
+
+Lemma map2_repeat_l {A B C} (f : A -> B -> C) l c : map2 f (repeat c (length l)) l = map (f c) l.
+Proof. induction l as [|a l IH]; [reflexivity|]. cbn [length repeat map2 map]. rewrite IH. reflexivity. Qed.
+
+Lemma map2_blocks_l {A B C} (f : A -> B -> C) (a : nat -> A) (c : nat -> nat) (Y : nat -> list B) G :
+  (forall o, o < G -> length (Y o) = c o) ->
+  map2 f (blocks G (fun o => repeat (a o) (c o))) (blocks G Y) = blocks G (fun o => map (f (a o)) (Y o)).
+Proof.
+  intros H. unfold blocks. rewrite map2_concat.
+  - f_equal. apply map_ext_in. intros o Ho. apply in_seq in Ho. rewrite <- H by lia. apply map2_repeat_l.
+  - intros o Ho. apply in_seq in Ho. rewrite repeat_length. symmetry. apply H. lia.
+Qed.
+
+Lemma length_blocks_repeat {A} (a : nat -> A) D :
+  length (blocks (length D) (fun o => repeat (a o) (getn D o))) = nsum D.
+Proof.
+  unfold blocks. rewrite length_concat_map.
+  rewrite (map_ext _ (getn D)) by (intros o; apply repeat_length). rewrite map_getn_seq. reflexivity.
+Qed.
+
+Lemma d_r_idx_eq D dest_idx : (forall k, k < length D -> getn dest_idx k = nsum (firstn k D)) ->
+  map2 Nat.sub (seq 0 (length (blocks (length D) (fun o => repeat o (getn D o)))))
+       (map (getn dest_idx) (blocks (length D) (fun o => repeat o (getn D o))))
+  = blocks (length D) (fun o => seq 0 (getn D o)).
+Proof.
+  intros H. rewrite length_blocks_repeat, map_blocks, (seq_blocks D 0).
+  unfold blocks. rewrite map2_concat by (intros o _; rewrite seq_length, repeat_length; reflexivity).
+  f_equal. apply map_ext_in. intros o Ho. apply in_seq in Ho. rewrite H by lia. cbn [Nat.add].
+  apply map2_sub_seq_repeat.
+Qed.
+
+Lemma combine_map2 {A B} (l1 : list A) (l2 : list B) : combine l1 l2 = map2 pair l1 l2.
+Proof. revert l2; induction l1 as [|a l1 IH]; intros [|b l2]; cbn [combine map2]; try reflexivity. rewrite IH. reflexivity. Qed.
+
+Lemma combine_blocks {A B} (X : nat -> list A) (Y : nat -> list B) G :
+  (forall o, o < G -> length (X o) = length (Y o)) ->
+  combine (blocks G X) (blocks G Y) = blocks G (fun o => combine (X o) (Y o)).
+Proof.
+  intros H. rewrite combine_map2. unfold blocks. rewrite map2_concat.
+  - f_equal. apply map_ext. intros o. symmetry. apply combine_map2.
+  - intros o Ho. apply in_seq in Ho. apply H. lia.
+Qed.
+
+(* ---------------------------------------------------------------- the triangular tables *)
+Lemma tri_S n : tri (S n) = n + tri n.
+Proof.
+  unfold tri. replace (S n * (S n - 1)) with (n * (n - 1) + n * 2) by (destruct n; cbn [Nat.sub]; lia).
+  rewrite Nat.div_add by lia. lia.
+Qed.
+
+Lemma pos_pairs_length n : length (pos_pairs n) = tri n.
+Proof.
+  induction n as [|n IH]; [reflexivity|].
+  rewrite pos_pairs_S, app_length, !map_length, seq_length, IH, tri_S. reflexivity.
+Qed.
+
+Lemma v_j1_pairs n : concat (map (fun x => repeat x (n - x - 1)) (seq 0 n)) = map fst (pos_pairs n).
+Proof.
+  unfold pos_pairs. rewrite map_flat_map_c18, flat_map_concat_map. f_equal. apply map_ext. intros a.
+  rewrite map_map. cbn [fst]. rewrite map_const_list, seq_length. f_equal. lia.
+Qed.
+
+Lemma v_j2_pairs n : concat (map (fun x => seq (x + 1) (n - (x + 1))) (seq 0 n)) = map snd (pos_pairs n).
+Proof.
+  unfold pos_pairs. rewrite map_flat_map_c18, flat_map_concat_map. f_equal. apply map_ext. intros a.
+  rewrite map_map. cbn [snd]. rewrite map_id, Nat.add_1_r. reflexivity.
+Qed.
+
+(* ---------------------------------------------------------------- sparse lookup *)
+Lemma sparse_get_app i1 j1 v1 i2 j2 v2 a b : length i1 = length j1 -> length j1 = length v1 ->
+  sparse_get (i1 ++ i2) (j1 ++ j2) (v1 ++ v2) a b = sparse_get i1 j1 v1 a b + sparse_get i2 j2 v2 a b.
+Proof.
+  revert j1 v1. induction i1 as [|x i1 IH]; intros [|y j1] [|w v1] H1 H2; cbn [length] in *; try lia.
+  - reflexivity.
+  - cbn [app sparse_get]. rewrite IH by lia. lia.
+Qed.
+
+Lemma sparse_get_block V : forall c s a b,
+  sparse_get (repeat c (length V)) (seq s (length V)) V a b =
+  if (c =? a) && (s <=? b) && (b <? s + length V) then nth (b - s) V 0 else 0.
+Proof.
+  induction V as [|w V IH]; intros c s a b.
+  - cbn [length repeat seq sparse_get].
+    destruct (c =? a), (Nat.leb_spec s b), (Nat.ltb_spec b (s + 0)); cbn [andb]; try reflexivity; lia.
+  - cbn [length repeat seq sparse_get]. rewrite IH.
+    destruct (Nat.eqb_spec c a) as [E|E]; cbn [andb]; [|reflexivity].
+    destruct (Nat.eqb_spec s b) as [E2|E2], (Nat.leb_spec s b), (Nat.leb_spec (S s) b),
+      (Nat.ltb_spec b (s + S (length V))), (Nat.ltb_spec b (S s + length V)); cbn [andb]; try lia.
+    + subst. rewrite Nat.sub_diag. cbn [nth]. lia.
+    + replace (b - s) with (S (b - S s)) by lia. cbn [nth]. lia.
+Qed.
+
+Section SparseTables.
+  Variable V : nat -> list nat.
+  Hypothesis HV : forall c, length (V c) = tri c.
+
+  Lemma sparse_one c a b :
+    sparse_get (repeat c (tri c)) (seq 0 (tri c)) (V c) a b =
+    if (c =? a) && (b <? tri c) then nth b (V c) 0 else 0.
+  Proof.
+    rewrite <- (HV c). rewrite sparse_get_block. cbn [Nat.leb Nat.add]. rewrite Nat.sub_0_r, andb_true_r.
+    reflexivity.
+  Qed.
+
+  Lemma sparse_notin U a b : ~ In a U ->
+    sparse_get (concat (map (fun c => repeat c (tri c)) U)) (concat (map (fun c => seq 0 (tri c)) U))
+               (concat (map V U)) a b = 0.
+  Proof.
+    induction U as [|c U IH]; intros Hn; [reflexivity|]. cbn [map concat].
+    rewrite sparse_get_app by (rewrite ?repeat_length, ?seq_length, ?HV; reflexivity).
+    rewrite sparse_one, IH by (intros C; apply Hn; right; exact C).
+    destruct (Nat.eqb_spec c a) as [E|E]; [exfalso; apply Hn; left; exact E|reflexivity].
+  Qed.
+
+  Lemma sparse_lookup U a b : NoDup U -> In a U -> b < tri a ->
+    sparse_get (concat (map (fun c => repeat c (tri c)) U)) (concat (map (fun c => seq 0 (tri c)) U))
+               (concat (map V U)) a b = nth b (V a) 0.
+  Proof.
+    intros ND. induction ND as [|c U Hc ND IH]; intros Hin Hb; [contradiction|]. cbn [map concat].
+    rewrite sparse_get_app by (rewrite ?repeat_length, ?seq_length, ?HV; reflexivity).
+    rewrite sparse_one. destruct (Nat.eqb_spec c a) as [E|E].
+    - subst c. rewrite sparse_notin by exact Hc.
+      destruct (Nat.ltb_spec b (tri a)); [cbn [andb]; lia|lia].
+    - cbn [andb]. destruct Hin as [Hin|Hin]; [congruence|]. rewrite IH by assumption. reflexivity.
+  Qed.
+End SparseTables.
+
+Lemma map2_map_r {A B C} (f : A -> B -> C) (g : A -> B) l : map2 f l (map g l) = map (fun c => f c (g c)) l.
+Proof. induction l as [|a l IH]; [reflexivity|]. cbn [map map2]. rewrite IH. reflexivity. Qed.
+
+(* ---------------------------------------------------------------- np.unique of the sorted counts *)
+Lemma nunique_In l x : In x (nunique_sorted l) <-> In x l.
+Proof.
+  induction l as [|a r IH]; [reflexivity|]. destruct r as [|b r']; [reflexivity|].
+  change (nunique_sorted (a :: b :: r')) with
+    (if a =? b then nunique_sorted (b :: r') else a :: nunique_sorted (b :: r')).
+  destruct (Nat.eqb_spec a b) as [E|E].
+  - rewrite IH. subst. cbn [In]. tauto.
+  - cbn [In] in *. rewrite IH. tauto.
+Qed.
+
+Lemma nunique_NoDup l : StronglySorted le l -> NoDup (nunique_sorted l).
+Proof.
+  intros HS. induction HS as [|a r HS IH F]; [constructor|]. destruct r as [|b r']; [constructor; [intros []|constructor]|].
+  change (nunique_sorted (a :: b :: r')) with
+    (if a =? b then nunique_sorted (b :: r') else a :: nunique_sorted (b :: r')).
+  destruct (Nat.eqb_spec a b) as [E|E]; [exact IH|]. constructor; [|exact IH].
+  intros Hin. apply (proj1 (nunique_In _ _)) in Hin.
+  inversion F as [|b' r'' Hab F']; subst. inversion HS as [|b' r'' HS' Fb]; subst.
+  rewrite Forall_forall in Fb. destruct Hin as [Hin|Hin]; [lia|]. specialize (Fb a Hin). lia.
+Qed.
+
+Definition usizes (N : list nat) : list nat := nunique_sorted (map Z.to_nat (zsort (map Z.of_nat N))).
+
+Lemma usizes_NoDup N : NoDup (usizes N).
+Proof.
+  unfold usizes. apply nunique_NoDup.
+  eapply StronglySorted_map; [|apply zsort_sorted]. intros x y Hxy. lia.
+Qed.
+
+Lemma usizes_In N x : In x (usizes N) <-> In x N.
+Proof.
+  unfold usizes. rewrite nunique_In, in_map_iff. split.
+  - intros (z & E & Hz). eapply Permutation_in in Hz; [|symmetry; apply zsort_perm].
+    apply in_map_iff in Hz. destruct Hz as (n & En & Hn). subst. rewrite Nat2Z.id. exact Hn.
+  - intros Hx. exists (Z.of_nat x). split; [apply Nat2Z.id|].
+    eapply Permutation_in; [apply zsort_perm|]. apply in_map. exact Hx.
+Qed.
